@@ -333,21 +333,33 @@ func checkT(c TCase, slow bool) (*hx.Violation, int) {
 	for i, sec := range c.Seconds {
 		nowMS := sec*1000 + int64(i*137%1000)
 		if i == 0 {
-			mr := e.Srv.Get(ls.URL(parts, e.Asset.Path, "Manifest.mpd", nowMS))
-			if mr.Code != 200 {
-				return hx.V("traffic-mpd", "MPD with traffic_%s -> %v", pattern, mr), points
+			// the live MPD, the multi-period MPD and the static MPD after a stop time all offer one BaseURL per pattern in every Period
+			variants := [][]string{parts}
+			if sec > 30 {
+				variants = append(variants, append(append([]string{}, parts...), "stop_"+strconv.FormatInt(sec-10, 10)))
 			}
-			m, err := mpdx.Parse(mr.Body)
-			if err != nil {
-				return hx.V("traffic-mpd", "unparsable: %v", err), points
+			if c.Type != "number" && (int64(e.Asset.LoopMS)/int64(len(e.Asset.Ref.Segs))) <= 2000 {
+				variants = append(variants, append(append([]string{}, parts...), "periods_60"))
 			}
-			bu := m.Periods[0].BaseURLs
-			if len(bu) != len(c.Patterns) {
-				return hx.V("traffic-baseurls", "MPD offers %d BaseURLs for %d patterns: %v", len(bu), len(c.Patterns), bu), points
-			}
-			for b := range bu {
-				if strings.TrimSpace(bu[b]) != fmt.Sprintf("bu%d/", b) {
-					return hx.V("traffic-baseurls", "BaseURL %d is %q", b, bu[b]), points
+			for _, vp := range variants {
+				mr := e.Srv.Get(ls.URL(vp, e.Asset.Path, "Manifest.mpd", nowMS))
+				if mr.Code != 200 {
+					return hx.V("traffic-mpd", "MPD with %v -> %v", vp, mr), points
+				}
+				m, err := mpdx.Parse(mr.Body)
+				if err != nil {
+					return hx.V("traffic-mpd", "unparsable: %v", err), points
+				}
+				for _, per := range m.Periods {
+					bu := per.BaseURLs
+					if len(bu) != len(c.Patterns) {
+						return hx.V("traffic-baseurls", "MPD (%v, type %s) offers %d BaseURLs for %d patterns in period %s: %v", vp, m.Type, len(bu), len(c.Patterns), per.ID, bu), points
+					}
+					for b := range bu {
+						if strings.TrimSpace(bu[b]) != fmt.Sprintf("bu%d/", b) {
+							return hx.V("traffic-baseurls", "BaseURL %d is %q", b, bu[b]), points
+						}
+					}
 				}
 			}
 		}
